@@ -172,10 +172,36 @@ class Ctx:
         from . import pm
 
         pm.take_log()
+        # every violation is reported against code the analysis still recognises: the function (top-level form) the
+        # finding is about must be nearly the reviewed one.  In a function rewritten at large the facts a rule extracts
+        # can mean something else than they did when the rule was confirmed; the instance is then unresolved.
+        if not os.environ.get("HYVERIF_EDIT_STATS") and not self._recognised(file, line):
+            self.unres(rule, key, f"not reported, the code is no longer recognised ({getattr(self, 'last_recognition', '')}): " + message[:200])
+            return
+        if os.environ.get("HYVERIF_EDIT_STATS"):
+            message += f" [[edit={self._edit_size(file, line)}]]"
         self.instances.append(
             dict(rule=rule, key=key, verdict="VIOLATED", detail=message, nontrivial=True)
         )
         self.findings.append(Finding(rule, key, message, file, line, witness, facts))
+
+    def _edit_size(self, file, line):
+        """Largest number of changed statements (tokens for .hy) over the functions the finding is about."""
+        src = getattr(self, "src", None)
+        if src is None or not file:
+            return "?"
+        try:
+            from . import fdiff
+            if str(file).endswith(".hy"):
+                ok, why = fdiff.hy_small_edit(src.hy(file), line or 0)
+            elif str(file).endswith(".py"):
+                mod = src.variant(True).py(file)
+                ok, why = fdiff.small_edit(mod, line) if line else fdiff.file_small_edit(mod)
+            else:
+                return "?"
+            return why
+        except Exception as e:
+            return f"? {e}"
 
     def unres(self, rule, key, why):
         from . import pm
